@@ -373,6 +373,10 @@ func c16gRun(s *sim.Sim, p *sim.Params) {
 			case r < 20:
 				o.kind = "joinsay"
 			case r < 21:
+				if s.Choose(sim.SWork, 2) == 0 {
+					o.kind = "odd" // frames the handlers were not written for
+					break
+				}
 				o.kind = "proto-join" // the built-in join_room frame next to the Glyph handlers
 			default:
 				o.kind = "deaf"
@@ -428,6 +432,34 @@ func c16gRun(s *sim.Sim, p *sim.Params) {
 					w.bcasts[u] = &g16bcast{u: u, room: o.room, call: s.Stamp()}
 					w.noteMemb(id, o.room, "leave-sent", s.Stamp(), 0)
 					err = c.cmd(map[string]any{"cmd": "joinsay", "u": u, "room": o.room})
+				case "odd":
+					// values of unexpected types where the handler expects a room name or a command,
+					// plain text, a JSON array, a frame without data: the handler may fail, the hub
+					// must go on
+					frames := []string{
+						`{"type":"json","data":{"cmd":"join","room":{"nested":true}}}`,
+						`{"type":"json","data":{"cmd":"join","room":5}}`,
+						`{"type":"json","data":{"cmd":"sayto","u":"zz","room":null}}`,
+						`{"type":"json","data":{"cmd":"leave"}}`,
+						`{"type":"json","data":{"cmd":["say"],"u":7}}`,
+						`{"type":"json","data":[1,2,3]}`,
+						`{"type":"json","data":"just a string"}`,
+						`{"type":"json"}`,
+						`{"type":"text","data":"hello there"}`,
+						`plain text, not JSON at all`,
+						`{"type":"json","data":{"cmd":"join","room":""}}`,
+						`{"type":"json","data":{"cmd":"sayto","u":"zz","room":"` + strings.Repeat("r", 300) + `"}}`,
+					}
+					s.Fault("unexpected-frame")
+					frame := frames[s.Choose(sim.SWork, len(frames))]
+					if strings.Contains(frame, `"cmd":"join"`) && !lobby {
+						// whatever room name the handler makes of the value, the client asked for it
+						for _, r := range []string{"", "5", "map[nested:true]", "{\"nested\":true}"} {
+							w.noteMemb(id, r, "join", s.Stamp(), 0)
+						}
+					}
+					c.ws.SetWriteDeadline(time.Now().Add(2 * time.Second))
+					err = c.ws.WriteMessage(gws.TextMessage, []byte(frame))
 				case "proto-join":
 					w.noteMemb(id, o.room, "join", s.Stamp(), 0)
 					b, _ := json.Marshal(map[string]any{"type": "join_room", "room": o.room})
